@@ -17,7 +17,6 @@ var (
 	raceOffset int64
 )
 
-
 // raceReports returns the signatures (pairs of cql-proxy access sites) of the data races the
 // detector reported since the last call. Reports whose both sides lie outside cql-proxy
 // (harness code) are ignored.
